@@ -37,6 +37,21 @@ func gid() uint64 {
 	return n
 }
 
+// role tells the wallet's two background goroutines apart by their call stack: "worker"
+// (masswallet.worker: asyncImport / asyncRemove), "handler" (masswallet.handle: blocks and
+// unconfirmed transactions), "" for anything else.
+func role() string {
+	buf := make([]byte, 16384)
+	st := buf[:runtime.Stack(buf, false)]
+	switch {
+	case bytes.Contains(st, []byte("masswallet.worker(")):
+		return "worker"
+	case bytes.Contains(st, []byte("masswallet.handle(")):
+		return "handler"
+	}
+	return ""
+}
+
 // Ev is one finished write transaction seen by the gate.
 type Ev struct {
 	G         uint64
@@ -164,15 +179,18 @@ func (g *Gate) ended(committed bool) {
 	e := Ev{G: id, Committed: committed, Seq: g.seq}
 	g.Log = append(g.Log, e)
 	hold := false
-	if g.armedAny {
-		g.armedAny = false
-		g.Handler = id
-		hold = true
-	} else if g.armed && id != g.Handler {
-		if g.Worker == 0 {
+	if g.armedAny || g.armed {
+		switch role() {
+		case "handler":
+			g.Handler = id
+			if g.armedAny {
+				g.armedAny = false
+				hold = true
+			}
+		case "worker":
 			g.Worker = id
+			hold = g.armed
 		}
-		hold = g.Worker == id
 	}
 	var ch chan struct{}
 	if hold {
@@ -202,10 +220,12 @@ func (g *Gate) beginning() {
 		g.mu.Unlock()
 		return
 	}
-	g.armedB = false
-	if g.Worker == 0 {
-		g.Worker = id
+	if role() != "worker" {
+		g.mu.Unlock()
+		return
 	}
+	g.armedB = false
+	g.Worker = id
 	ch := make(chan struct{})
 	g.held = ch
 	g.heldEv = Ev{G: id}
